@@ -178,10 +178,9 @@ impl FunctionMap {
 /// For example, "/foo/bar" matches "/foo/*"
 pub fn key_match(key1: &str, key2: &str) -> bool {
     if let Some(i) = key2.find('*') {
-        if key1.len() > i {
-            return key1[..i] == key2[..i];
-        }
-        key1[..] == key2[..i]
+        // prefix test; slicing key1 at a byte offset taken from key2 panics
+        // when the offset falls inside a multi-byte character of key1
+        key1.starts_with(&key2[..i])
     } else {
         key1 == key2
     }
@@ -192,8 +191,10 @@ pub fn key_match(key1: &str, key2: &str) -> bool {
 /// "bar/foo" will be returned.
 pub fn key_get(key1: &str, key2: &str) -> String {
     if let Some(i) = key2.find('*') {
-        if key1.len() > i && key1[..i] == key2[..i] {
-            return key1[i..].to_string();
+        if let Some(rest) = key1.strip_prefix(&key2[..i]) {
+            if !rest.is_empty() {
+                return rest.to_string();
+            }
         }
     }
     "".to_string()
